@@ -27,6 +27,8 @@ def one(sid, tier, budget, all_props):
         cmd = [PY, os.path.join(VERIF, "tools", "seedtool.py"), "verify", wt, sd, meta["property"], "--tier", meta.get("tier", tier), "--budget", str(budget)]
         if all_props:
             cmd += ["--all-props", "--other-budget", str(OTHER_BUDGET)]
+        if VSEEDS:
+            cmd += ["--verif-seeds", VSEEDS]
         r = subprocess.run(cmd, stdout=subprocess.PIPE, stderr=subprocess.STDOUT, text=True)
         s = r.stdout
         out = json.loads(s[s.index("{"):])
@@ -44,6 +46,7 @@ def one(sid, tier, budget, all_props):
 
 
 OTHER_BUDGET = 30
+VSEEDS = ""
 
 
 def snapshot():
@@ -73,6 +76,8 @@ def _main(a):
     tier = a[a.index("--tier") + 1] if "--tier" in a else "quick"
     budget = int(a[a.index("--budget") + 1]) if "--budget" in a else 50
     jobs = int(a[a.index("--jobs") + 1]) if "--jobs" in a else 1
+    global VSEEDS
+    VSEEDS = a[a.index("--verif-seeds") + 1] if "--verif-seeds" in a else ""
     ids = sorted(d for d in os.listdir(os.path.join(VERIF, "seeded")) if os.path.exists(os.path.join(VERIF, "seeded", d, "meta.json")))
     ids = [i for i in ids if only is None or i in only]
     t0 = time.time()
@@ -80,7 +85,9 @@ def _main(a):
         for sid, meta in ex.map(lambda i: one(i, tier, budget, "--all-props" in a), ids):
             lr = meta["last_run"]
             c = (lr.get("checks") or {}).get(meta["property"], {})
-            print("%-48s confirmed=%s caught=%s rc=%s %s" % (sid, lr.get("confirmed"), lr.get("caught"), c.get("rc"), c.get("first", "")[:110]), flush=True)
+            rate = lr.get("rate")
+            rtxt = (" rate=%d/%d" % (sum(1 for v in rate.values() if v["rc"] == 1), len(rate))) if rate else ""
+            print("%-48s confirmed=%s caught=%s rc=%s%s %s" % (sid, lr.get("confirmed"), lr.get("caught"), c.get("rc"), rtxt, c.get("first", "")[:110]), flush=True)
     write_table()
     print("done in %.0fs" % (time.time() - t0))
 
